@@ -8,7 +8,7 @@ APPEND = ('Vec::extend_from_slice', 'Vec::push', 'WriteBytesExt::write_u32', 'Wr
 NEUTRAL = ('Vec::try_reserve', 'Vec::try_reserve_exact', 'Vec::reserve_exact', 'Vec::starts_with', 'Vec::ends_with', 'Vec::contains', 'Vec::len', 'Vec::reserve', 'Vec::capacity', 'Vec::is_empty', 'Deref::deref', 'Vec::as_slice', 'Vec::as_ptr', 'Vec::with_capacity',
            'Clone::clone', 'Vec::to_vec', 'slice::to_vec', 'Vec::iter', 'Index::index', 'AsRef::as_ref', 'Borrow::borrow', 'Vec::first', 'Vec::last', 'Vec::get')
 POSITIONAL = ('IndexMut::index_mut', 'Vec::resize')
-FORBIDDEN_HINT = ('clear', 'truncate', 'drain', 'insert', 'remove', 'retain', 'split_off', 'set_len', 'swap', 'as_mut_slice', 'iter_mut', 'fill',
+FORBIDDEN_HINT = ('take', 'replace', 'clear', 'truncate', 'drain', 'insert', 'remove', 'retain', 'split_off', 'set_len', 'swap', 'as_mut_slice', 'iter_mut', 'fill',
                   'copy_within', 'sort', 'clone_into', 'clone_from', 'dedup', 'pop', 'swap_remove', 'splice', 'copy_from_slice', 'reverse', 'rotate_left')
 
 
